@@ -265,6 +265,7 @@ func checkC08WriteGuard(c *Ctx) {
 // ---- C09.search-text-agreement / C09.repeat-search-cursor / C07+C09 sibling prologue
 func checkC09Round4(c *Ctx) {
 	p, r := c.P, c.R
+	checkC09WalkDown(c)
 	r.Rule("C09.filter-prefix-agreement", "K5", "history.Complete filters the entries on the same text it hands to the completion engine as the prefix to replace (the whole line)", 1)
 	if CP := p.Func("history.Complete"); CP != nil {
 		r.Fn(fnName(CP))
@@ -628,4 +629,157 @@ func loadAddr(v ssa.Value) ssa.Value {
 		return u.X
 	}
 	return v
+}
+
+// ---- C09.walk-down-restores
+func checkC09WalkDown(c *Ctx) {
+	p, r := c.P, c.R
+	r.Rule("C09.walk-down-restores", "K1", "whenever Walk resets the position to the in-progress buffer (hpos = -1) the buffer is brought back too: restoreLineBuffer runs on that path unless the walk started on the in-progress buffer", 1)
+	WK := p.Func("(*history.Sources).Walk")
+	if WK == nil {
+		r.Unk("C09.walk-down-restores", "(*history.Sources).Walk", "-", "anchor not found")
+		return
+	}
+	r.Fn(fnName(WK))
+	n := 0
+	eachInstr(WK, func(in ssa.Instruction) {
+		st, ok := isFieldStore(in, "history.Sources", "hpos")
+		if !ok {
+			return
+		}
+		if k, isK := constInt(st.Val); !isK || k != -1 {
+			return
+		}
+		n++
+		// some path into this store passes restoreLineBuffer: the block (or a predecessor chain) calls it
+		restored := false
+		seen := map[*ssa.BasicBlock]bool{}
+		var back func(b *ssa.BasicBlock, d int)
+		back = func(b *ssa.BasicBlock, d int) {
+			if seen[b] || d > 3 {
+				return
+			}
+			seen[b] = true
+			for _, x := range b.Instrs {
+				if isCallTo(x, "(*history.Sources).restoreLineBuffer") {
+					restored = true
+				}
+			}
+			for _, pb := range b.Preds {
+				back(pb, d+1)
+			}
+		}
+		back(in.Block(), 0)
+		r.Check(restored, "C09.walk-down-restores", siteKey(WK, "hpos=-1", n-1), p.IPos(in), "restoreLineBuffer reaches this reset", "Walk goes back to the in-progress position without restoring the in-progress text on any path: a downward move that overshoots the newest entry leaves a history line in the buffer and what the user was typing is lost")
+	})
+	if n == 0 {
+		r.OK("C09.walk-down-restores", fnName(WK)+":no-direct-reset", p.Pos(WK.Pos()), "Walk only resets the position through restoreLineBuffer")
+	}
+}
+
+// ---- C07.undo-keeps-start
+func checkC07UndoKeepsStart(c *Ctx) {
+	p, r := c.P, c.R
+	r.Rule("C07.undo-keeps-start", "K3", "the first undo of a series (undo position 0) records the text it starts from when that text is not the newest saved state — typed characters are never saved by self-insert — so that as many redos as undos come back to it", 1)
+	U := p.Func("(*history.Sources).Undo")
+	if U == nil {
+		r.Unk("C07.undo-keeps-start", "(*history.Sources).Undo", "-", "anchor not found")
+		return
+	}
+	r.Fn(fnName(U))
+	bf := blockFacts(U)
+	found := false
+	eachInstr(U, func(in ssa.Instruction) {
+		st, ok := isFieldStore(in, lhT, "items")
+		if !ok {
+			return
+		}
+		cl, ok := st.Val.(*ssa.Call)
+		if !ok {
+			return
+		}
+		if b, isB := cl.Call.Value.(*ssa.Builtin); !isB || b.Name() != "append" {
+			return
+		}
+		// appended under pos == 0
+		atStart := false
+		for fc := range factsAt(bf, in) {
+			rel, isR := relOf(fc.Cond, fc.Val)
+			if !isR || !isFieldLoad(rel.X, lhT, "pos") {
+				continue
+			}
+			if k, isK := constInt(rel.Y); isK && ((rel.Op == token.EQL && k == 0) || (rel.Op == token.LSS && k == 1) || (rel.Op == token.LEQ && k == 0)) {
+				atStart = true
+			}
+		}
+		if atStart {
+			found = true
+		}
+	})
+	r.Check(found, "C07.undo-keeps-start", fnName(U)+":records-start", p.Pos(U.Pos()), "appends the current text under pos == 0", "Undo never records the text it starts from: after typing (which is not saved) undo cannot be reversed by redo, the typed text is gone")
+}
+
+// ---- C19.prefix-char-plain
+func checkC19PrefixPlain(c *Ctx) {
+	p, r := c.P, c.R
+	r.Rule("C19.prefix-char-plain", "K4", "escape() uses the \\\\C- / \\\\M- prefixes only when the character written after them is not a backslash or a quote (which the reader, and the quoted form of a bind line, would take for an escape or for the end of the sequence)", 2)
+	E := p.Func("inputrc.escape")
+	if E == nil {
+		r.Unk("C19.prefix-char-plain", "inputrc.escape", "-", "anchor not found")
+		return
+	}
+	r.Fn(fnName(E))
+	// the predicate: a closure (or function) comparing its argument with '\\', '"' and '\''
+	isPlainPred := func(f *ssa.Function) bool {
+		if f == nil {
+			return false
+		}
+		seen := map[int64]bool{}
+		eachInstr(f, func(in ssa.Instruction) {
+			if bo, ok := in.(*ssa.BinOp); ok && (bo.Op == token.NEQ || bo.Op == token.EQL) {
+				if k, isK := constInt(bo.Y); isK {
+					seen[k] = true
+				}
+			}
+		})
+		return seen['\\'] && seen['"'] && seen['\'']
+	}
+	bf := blockFacts(E)
+	for _, pfx := range []string{`\C-`, `\M-`} {
+		n := 0
+		eachInstr(E, func(in ssa.Instruction) {
+			bo, ok := in.(*ssa.BinOp)
+			if !ok || bo.Op != token.ADD {
+				return
+			}
+			s, isS := constString(bo.Y)
+			if !isS || s != pfx {
+				return
+			}
+			n++
+			guarded := false
+			for fc := range factsAt(bf, in) {
+				cl, isC := fc.Cond.(*ssa.Call)
+				if !isC || !fc.Val {
+					continue
+				}
+				callee := staticCallee(cl)
+				if callee == nil {
+					// a call through a local closure value
+					if mc, ok := cl.Call.Value.(*ssa.MakeClosure); ok {
+						callee, _ = mc.Fn.(*ssa.Function)
+					} else if fn, ok := cl.Call.Value.(*ssa.Function); ok {
+						callee = fn
+					}
+				}
+				if isPlainPred(callee) {
+					guarded = true
+				}
+			}
+			r.Check(guarded, "C19.prefix-char-plain", fmt.Sprintf("inputrc.escape:%s#%d", pfx, n-1), p.IPos(in), "only before a character that is neither a backslash nor a quote", "the "+pfx+" prefix is written whatever character follows it: a control or meta character whose base is a backslash or a quote comes out as a prefix plus a bare backslash or quote, and the printed bind line does not read back")
+		})
+		if n == 0 {
+			r.Unk("C19.prefix-char-plain", "inputrc.escape:"+pfx, "-", "the prefix is not written by string concatenation any more — rule needs review")
+		}
+	}
 }
